@@ -14,7 +14,7 @@ The proofs go through the single inductive invariant `ParProofs.Inv` (`Proofs/Pa
 
 Two findings of the first round (the main thread raising a timed suspend while the timer thread had
 re-started a branch; "suspend" reported although the policy had meanwhile become decided) are closed by
-the fix modelled in `Par.timerFire` (the resubmitter does not start a branch once the completion event
+the fix modelled in `Par.resubmit` (the resubmitter does not start a branch once the completion event
 is set): their witnesses are no longer runs of the model, and the statements they refuted are now
 proved at full strength (`C07X_suspend_means_idle`, `C09X_suspend_excludes_policy`,
 `C07X_no_start_after_decision`).
@@ -67,10 +67,11 @@ theorem C09X_bookkeeping (h : Reach n maxConc cfg s) :
     (∀ i, n ≤ i → s.status i = (init n maxConc cfg).status i) ∧
     s.submitted ≤ n ∧
     (∀ i, s.submitted ≤ i → i < n →
-      s.status i = .pending ∧ i ∉ s.queue ∧ i ∉ s.active ∧ ∀ t, (t, i) ∉ s.timers) := by
+      s.status i = .pending ∧ i ∉ s.queue ∧ i ∉ s.active ∧ ∀ t, (t, i) ∉ s.timers) ∧
+    (∀ i, s.refreshing = some i → i < s.submitted ∧ s.status i = .pending) := by
   have hI := Inv.of_reach h
   refine ⟨hI.hn, hI.hcfg, hI.act_nodup, hI.q_nodup, hI.disj, ?_, ?_, ?_, hI.toBook.succ_fail_le, ?_,
-    hI.tim_has, ?_, hI.sub_le, ?_⟩
+    hI.tim_has, ?_, hI.sub_le, ?_, hI.refr⟩
   · intro i hi
     exact ⟨hi.elim (hI.act_lt i) (hI.q_lt i), hI.run i hi⟩
   · rw [hI.hsucc]; exact (cnt_eq_filter _ _).1
@@ -423,7 +424,7 @@ every reachable state in which it is set, hence until and including the main thr
 after it — nothing is executing, nothing is queued, no branch is RUNNING, the policy is undecided and
 the event is set, and every branch has been submitted (an unsubmitted branch is PENDING, which
 `should_execution_suspend` treats as not idle).  (When the decision is taken all branches are idle, `C07X_suspend_only_when_idle`;
-afterwards nothing can begin: the queue is empty and the timer thread, seeing the event, leaves a due
+afterwards nothing can begin: the queue is empty and the timer thread's resubmitter, seeing the event, leaves a due
 branch PENDING instead of starting it.  PENDING statuses may therefore appear; RUNNING never.) -/
 theorem C07X_suspend_decision_idle (h : Reach n maxConc cfg s) (hk : s.suspendExc.isSome = true) :
     s.active = [] ∧ s.queue = [] ∧ (∀ i, i < n → s.status i ≠ .running) ∧
@@ -434,7 +435,7 @@ theorem C07X_suspend_decision_idle (h : Reach n maxConc cfg s) (hk : s.suspendEx
 
 /-- **C07, "suspended" means idle.** Whenever the main thread has raised the suspend exception, no
 branch is RUNNING, no task is executing and none is queued — the statement refuted before the fix by
-the run `[begin 0, finish 0 (suspUntil 0), timerFire 0 true, begin 0, wake]`, which is no longer a run
+the run `[begin 0, finish 0 (suspUntil 0), timerFire 0 (ok), begin 0, wake]`, which is no longer a run
 of the model (see the last example of this file). -/
 theorem C07X_suspend_means_idle (h : Reach n maxConc cfg s) {k : Option Nat}
     (ho : s.out = some (.suspend k)) :
@@ -445,14 +446,15 @@ theorem C07X_suspend_means_idle (h : Reach n maxConc cfg s) {k : Option Nat}
   ⟨h0.1, h0.2.1, h0.2.2.1, hk, h0.2.2.2.1⟩
 
 /-- A branch becomes RUNNING **only** by its initial submission (`submit i` for the next unsubmitted
-index, from PENDING), or — again — by the timer thread's successful resubmission of a due
-timed-suspended branch, and that only while the completion event is not set, hence before any decision
-(no suspend decision taken, main thread not returned). -/
+index, from PENDING), or — again — by the resubmitter, the second half of a resumption
+(`resubmit i true`: refresh checkpoint ok), for the branch whose refresh is in flight, and that only
+while the completion event is not set, hence before any decision (no suspend decision taken, main
+thread not returned).  For the first half see `C07X_refresh_only_by_timer`. -/
 theorem C07X_running_again_only_by_timer (h : Reach n maxConc cfg s) {a : Act}
     (hs : step s a = some s') {i : Nat} (h0 : s.status i ≠ .running) (h1 : s'.status i = .running) :
     (a = .submit i ∧ i = s.submitted ∧ s.status i = .pending) ∨
-    (a = .timerFire i true ∧ s.evt = false ∧ s.out = none ∧ s.suspendExc = none ∧
-      ∃ t, s.status i = .suspendedUntil t ∧ t ≤ s.clock) := by
+    (a = .resubmit i true ∧ s.evt = false ∧ s.out = none ∧ s.suspendExc = none ∧
+      s.refreshing = some i ∧ s.status i = .pending) := by
   have hI := Inv.of_reach h
   rcases running_step hI.toBook hs h0 h1 with hr | hr
   · exact Or.inl hr
@@ -464,15 +466,55 @@ theorem C07X_running_again_only_by_timer (h : Reach n maxConc cfg s) {a : Act}
       · rfl
       · have := hI.susp_evt (by rw [hk]; rfl); rw [hr.2.1] at this; cases this
 
-/-- … in particular a branch that was already submitted becomes RUNNING *again* only by the timer. -/
+/-- … in particular a branch that was already submitted becomes RUNNING *again* only by the
+resubmitter. -/
 theorem C07X_running_again_only_by_timer' (h : Reach n maxConc cfg s) {a : Act}
     (hs : step s a = some s') {i : Nat} (hsub : i < s.submitted)
     (h0 : s.status i ≠ .running) (h1 : s'.status i = .running) :
-    a = .timerFire i true ∧ s.evt = false ∧ s.out = none ∧ s.suspendExc = none ∧
-      ∃ t, s.status i = .suspendedUntil t ∧ t ≤ s.clock := by
+    a = .resubmit i true ∧ s.evt = false ∧ s.out = none ∧ s.suspendExc = none ∧
+      s.refreshing = some i ∧ s.status i = .pending := by
   rcases C07X_running_again_only_by_timer h hs h0 h1 with ⟨_, hi, _⟩ | hr
   · omega
   · exact hr
+
+/-- … and a refresh is in flight for branch `i` only because the timer thread popped the due entry of
+the timed-suspended branch `i` (`timerFire i`, the first half of the resumption), when no other
+resumption was in flight. -/
+theorem C07X_refresh_only_by_timer (h : Reach n maxConc cfg s) {a : Act}
+    (hs : step s a = some s') {i : Nat} (h0 : s.refreshing ≠ some i) (h1 : s'.refreshing = some i) :
+    a = .timerFire i ∧ s.refreshing = none ∧
+    (∃ t, s.status i = .suspendedUntil t ∧ t ≤ s.clock ∧ (t, i) ∈ s.timers) ∧
+    s'.status i = .pending := by
+  have hI := Inv.of_reach h
+  have hI' := hI.step hs
+  rcases refreshing_step hI.toBook hs with e | ⟨j, t, ha, hn, hj, hst, hle⟩ | ⟨j, ok, _, _, hj⟩
+  · rw [e] at h1; exact absurd h1 h0
+  · rw [hj] at h1
+    have hji : j = i := Option.some.inj h1
+    subst hji
+    exact ⟨ha, hn, ⟨t, hst, hle, hI.tim_has t j hst⟩, (hI'.refr j hj).2⟩
+  · rw [hj] at h1; cases h1
+
+/-- **One resumption at a time.** While a refresh is in flight the timer thread pops nothing. -/
+theorem C09X_one_refresh_at_a_time (hr : s.refreshing.isSome = true) (i : Nat) :
+    step s (.timerFire i) = none := timerFire_disabled hr i
+
+/-- **The refresh window.** The branch whose refresh is in flight was submitted, is PENDING and has no
+task and no timer entry; and from the `timerFire i` that opened the window, along every continuation of
+the run that contains no `resubmit i _`, the window stays open and the branch stays PENDING (no other
+action changes its status) — the main thread's `submit`s, workers and callbacks run in between. -/
+theorem C09X_refresh_window (h : Reach n maxConc cfg s) {i : Nat} (hr : s.refreshing = some i) :
+    (i < s.submitted ∧ i < n ∧ s.status i = .pending ∧ i ∉ s.queue ∧ i ∉ s.active ∧
+      ∀ t, (t, i) ∉ s.timers) ∧
+    ∀ acts s'', runActs s acts = some s'' → (∀ ok, Act.resubmit i ok ∉ acts) →
+      s''.refreshing = some i ∧ s''.status i = .pending := by
+  have hI := Inv.of_reach h
+  have hp := (hI.refr i hr).2
+  refine ⟨⟨(hI.refr i hr).1, Nat.lt_of_lt_of_le (hI.refr i hr).1 hI.sub_le, hp,
+    fun hq => ?_, fun ha => ?_, fun t hm => ?_⟩, fun acts s'' hrun hno => refresh_window h hr acts hrun hno⟩
+  · have := hI.run i (Or.inr hq); rw [hp] at this; cases this
+  · have := hI.run i (Or.inl ha); rw [hp] at this; cases this
+  · have := hI.tim_live t i hm; rw [hp] at this; cases this
 
 /-- **C07, nothing is started after the decision.** Once the completion event is set, along every
 continuation of the run the only additions to the work queue are the main thread's remaining initial
@@ -510,11 +552,12 @@ theorem C07X_after_return_nothing_queued (h : Reach n maxConc cfg s) (ho : s.out
 /-! ## 7. the main thread never waits forever -/
 
 /-- **C07, never stuck (general form).** While the completion event is not set, the main thread is
-still submitting or the executor still regards some branch as RUNNING: it can never be that every
+still submitting, or a resumption is in flight (its `resubmit` is enabled), or the executor still
+regards some branch as RUNNING: it can never be that every
 branch is submitted and finished / suspended / waiting for a timer while the main thread keeps
 waiting. -/
 theorem C07X_waiting_implies_running (h : Reach n maxConc cfg s) (hn : 0 < n) (he : s.evt = false) :
-    s.submitted < n ∨ ∃ i, i < n ∧ s.status i = .running :=
+    s.submitted < n ∨ s.refreshing.isSome = true ∨ ∃ i, i < n ∧ s.status i = .running :=
   running_of_not_evt (Inv.of_reach h) hn he
 
 set_option synthInstance.maxSize 1024 in
@@ -526,14 +569,15 @@ branch stays RUNNING without a task, and from then on only `tick` is enabled —
 only after the executor returned; the model over-approximates.) -/
 theorem C07X_early_orphan_stuck_witness :
     (runActs (init 1 0 ⟨none, none, none⟩) [.submit 0, .begin 0, .finish 0 .orphan]).map
-      (fun s => (s.evt, s.active, s.queue, s.timers, s.status 0, s.submitted))
-      = some (false, [], [], [], .running, 1) := by decide
+      (fun s => (s.evt, s.active, s.queue, s.timers, s.status 0, s.submitted, s.refreshing))
+      = some (false, [], [], [], .running, 1, none) := by decide
 
 /-- … and such a state is stuck for good: only time passes. -/
 theorem C07X_stuck_forever (ha : s.active = []) (hq : s.queue = []) (ht : s.timers = [])
-    (he : s.evt = false) (hsub : s.n ≤ s.submitted) {a : Act} (hs : step s a = some s') :
+    (he : s.evt = false) (hsub : s.n ≤ s.submitted) (hrf : s.refreshing = none)
+    {a : Act} (hs : step s a = some s') :
     (∃ d, a = .tick d) ∧ s'.active = [] ∧ s'.queue = [] ∧ s'.timers = [] ∧ s'.evt = false ∧
-    s'.n ≤ s'.submitted := by
+    s'.n ≤ s'.submitted ∧ s'.refreshing = none := by
   cases a with
   | submit i =>
     simp only [Par.step, Par.submit_] at hs
@@ -544,30 +588,35 @@ theorem C07X_stuck_forever (ha : s.active = []) (hq : s.queue = []) (ht : s.time
       rw [if_pos (by omega)] at hs; cases hs
   | begin i => simp [Par.step, Par.begin_, hq] at hs
   | finish i f => simp [Par.step, Par.finish, ha] at hs
-  | timerFire i ok => simp [Par.step, Par.timerFire, ht] at hs
-  | tick d => cases hs; exact ⟨⟨d, rfl⟩, ha, hq, ht, he, hsub⟩
+  | timerFire i => simp [Par.step, Par.timerFire, ht] at hs
+  | resubmit i ok => simp [Par.step, Par.resubmit, hrf] at hs
+  | tick d => cases hs; exact ⟨⟨d, rfl⟩, ha, hq, ht, he, hsub, hrf⟩
   | cancel i => simp [Par.step, Par.cancel_, he] at hs
   | wake => simp [Par.step, Par.wake, he] at hs
 
 /-- **C07, never stuck.** In every run in which `OrphanedChildException` is only raised after the
 completion event is set (`ReachO`), a waiting main thread (`evt = false`) always has a task that is
-executing or queued, or is itself still submitting; the timer disjunct of the wanted statement is
-never needed (when all branches are idle the suspend decision itself sets the event). -/
+executing or queued, or is itself still submitting, or a resumption is in flight; the timer disjunct of
+the wanted statement is never needed (when all branches are idle the suspend decision itself sets the
+event). -/
 theorem C07X_never_stuck (h : ReachO n maxConc cfg s) (hn : 0 < n) (he : s.evt = false) :
-    s.active ≠ [] ∨ s.queue ≠ [] ∨ s.submitted < n := by
-  rcases running_of_not_evt (Inv.of_reach h.reach) hn he with hsub | ⟨i, hi, hr⟩
-  · exact Or.inr (Or.inr hsub)
+    s.active ≠ [] ∨ s.queue ≠ [] ∨ s.submitted < n ∨ s.refreshing.isSome = true := by
+  rcases running_of_not_evt (Inv.of_reach h.reach) hn he with hsub | hrf | ⟨i, hi, hr⟩
+  · exact Or.inr (Or.inr (Or.inl hsub))
+  · exact Or.inr (Or.inr (Or.inr hrf))
   rcases NoOrphan.of_reachO h he i hi hr with hm | hm
   · left; intro e; rw [e] at hm; cases hm
   · right; left; intro e; rw [e] at hm; cases hm
 
 /-- … and then an action is enabled that makes progress: an executing task can end (in any way), or
 nothing is executing and a worker is free to start the head of the queue (`0 < maxWorkers`), or the
-main thread can submit the next branch. -/
+main thread can submit the next branch, or the timer thread's resubmitter can finish the resumption
+in flight (either way). -/
 theorem C07X_progress_enabled (h : ReachO n maxConc cfg s) (hn : 0 < n) (he : s.evt = false) :
     (∃ i, i ∈ s.active ∧ ∀ f, (step s (.finish i f)).isSome = true) ∨
     (∃ i, s.queue.head? = some i ∧ (step s (.begin i)).isSome = true) ∨
-    (s.submitted < n ∧ (step s (.submit s.submitted)).isSome = true) := by
+    (s.submitted < n ∧ (step s (.submit s.submitted)).isSome = true) ∨
+    (∃ i, s.refreshing = some i ∧ ∀ ok, (step s (.resubmit i ok)).isSome = true) := by
   have hB := (Inv.of_reach h.reach).toBook
   cases ha : s.active with
   | cons x xs =>
@@ -576,7 +625,7 @@ theorem C07X_progress_enabled (h : ReachO n maxConc cfg s) (hn : 0 < n) (he : s.
     exact ⟨x, by rw [← ha]; exact hx, fun f => finish_enabled hx f⟩
   | nil =>
     right
-    rcases C07X_never_stuck h hn he with h1 | h1 | h1
+    rcases C07X_never_stuck h hn he with h1 | h1 | h1 | h1
     · exact absurd ha h1
     · left
       cases hq : s.queue with
@@ -584,12 +633,17 @@ theorem C07X_progress_enabled (h : ReachO n maxConc cfg s) (hn : 0 < n) (he : s.
       | cons x xs =>
         refine ⟨x, rfl, begin_enabled hq ?_⟩
         rw [ha]; exact maxWorkers_pos hB hn
-    · right
+    · right; left
       exact ⟨h1, submit_enabled (by rw [hB.hn]; exact h1)⟩
+    · right; right
+      cases hr : s.refreshing with
+      | none => rw [hr] at h1; cases h1
+      | some j => exact ⟨j, rfl, fun ok => resubmit_enabled hr ok⟩
 
 /-- Enabledness in general: an executing task can always end; the head of the queue can start whenever
 a worker is free; the main thread can always submit the next branch; once it has submitted everything
-and the event is set it can cancel any queued task. -/
+and the event is set it can cancel any queued task; the resubmitter can always finish the resumption
+in flight, and meanwhile the timer thread pops nothing. -/
 theorem C07X_enabled (s : St) :
     (∀ i f, i ∈ s.active → (step s (.finish i f)).isSome = true) ∧
     (∀ i rest, s.queue = i :: rest → s.active.length < s.maxWorkers →
@@ -597,16 +651,20 @@ theorem C07X_enabled (s : St) :
     (∀ d, (step s (.tick d)).isSome = true) ∧
     (∀ i, s.evt = true → s.out = none → s.n ≤ s.submitted → i ∈ s.queue →
       (step s (.cancel i)).isSome = true) ∧
-    (s.submitted < s.n → (step s (.submit s.submitted)).isSome = true) :=
+    (s.submitted < s.n → (step s (.submit s.submitted)).isSome = true) ∧
+    (∀ i ok, s.refreshing = some i → (step s (.resubmit i ok)).isSome = true) ∧
+    (∀ i, s.refreshing.isSome = true → step s (.timerFire i) = none) :=
   ⟨fun _ f hi => finish_enabled hi f, fun _ _ hq hw => begin_enabled hq hw, tick_enabled s,
-    fun _ he ho hsub hi => cancel_enabled he ho hsub hi, submit_enabled⟩
+    fun _ he ho hsub hi => cancel_enabled he ho hsub hi, submit_enabled,
+    fun _ ok hr => resubmit_enabled hr ok, fun i hr => timerFire_disabled hr i⟩
 
 /-! ## 8. fatal failures -/
 
 /-- **C06/C07, a fatal failure wakes the main thread, which raises it** (once it is done submitting). -/
 theorem C06X_fatal_wakes (h : Reach n maxConc cfg s) :
     (∀ i, finish s i .fatal = some s' → s'.fatal = true ∧ s'.evt = true) ∧
-    (∀ i, timerFire s i false = some s' → s'.fatal = true ∧ s'.evt = true ∧ s'.status i = .pending) ∧
+    (∀ i, resubmit s i false = some s' →
+      s'.fatal = true ∧ s'.evt = true ∧ s'.status i = .pending ∧ s'.refreshing = none) ∧
     (s.fatal = true → s.evt = true) ∧
     (∀ a, step s a = some s' → s.fatal = true → s'.fatal = true) ∧
     (s.fatal = true → wake s = some s' → s'.out = some .fatal) ∧
@@ -614,7 +672,7 @@ theorem C06X_fatal_wakes (h : Reach n maxConc cfg s) :
       ∃ s'', step s .wake = some s'' ∧ s''.out = some .fatal) ∧
     (s.out = some .fatal → s.fatal = true) := by
   have hI := Inv.of_reach h
-  refine ⟨fun i hs => finish_fatal hs, fun i hs => timerFire_false_fatal hI.toBook hs,
+  refine ⟨fun i hs => finish_fatal hs, fun i hs => resubmit_false_fatal hI.toBook hs,
     hI.fatal_evt, fun a hs => (mono_step hI.toBook hs).1, fun hf hs => wake_fatal hf hs, ?_,
     hI.out_fatal⟩
   intro hf ho hsub
@@ -689,9 +747,9 @@ example :
       [.submit 0, .submit 1, .begin 0, .begin 1, .finish 0 (.suspUntil 5), .finish 1 (.suspUntil 3), .wake]).map
       (fun s => (s.out, s.timers)) = some (some (.suspend (some 3)), [(5, 0), (3, 1)]) ∧
     (runActs (init 2 0 ⟨none, none, none⟩)
-      [.submit 0, .submit 1, .begin 0, .begin 1, .finish 0 (.suspUntil 5), .timerFire 0 true]).isNone = true ∧
+      [.submit 0, .submit 1, .begin 0, .begin 1, .finish 0 (.suspUntil 5), .timerFire 0, .resubmit 0 true]).isNone = true ∧
     (runActs (init 2 0 ⟨none, none, none⟩)
-      [.submit 0, .submit 1, .begin 0, .begin 1, .finish 0 (.suspUntil 5), .tick 5, .timerFire 0 true, .begin 0,
+      [.submit 0, .submit 1, .begin 0, .begin 1, .finish 0 (.suspUntil 5), .tick 5, .timerFire 0, .resubmit 0 true, .begin 0,
        .finish 0 .ok, .finish 1 .ok, .wake]).map (fun s => s.out)
       = some (some (.result [.completed, .completed])) := by decide
 
@@ -701,7 +759,7 @@ example :
     (runActs (init 2 0 ⟨none, none, none⟩) [.submit 0, .submit 1, .begin 0, .begin 1, .finish 0 .fatal, .wake]).map
       (fun s => (s.out, s.active)) = some (some .fatal, [1]) ∧
     (runActs (init 2 0 ⟨none, none, none⟩)
-      [.submit 0, .submit 1, .begin 0, .begin 1, .finish 0 (.suspUntil 1), .tick 1, .timerFire 0 false, .wake]).map
+      [.submit 0, .submit 1, .begin 0, .begin 1, .finish 0 (.suspUntil 1), .tick 1, .timerFire 0, .resubmit 0 false, .wake]).map
       (fun s => (s.out, s.status 0)) = some (some .fatal, .pending) := by decide
 
 
@@ -715,16 +773,16 @@ example :
     (runActs (init 5 2 ⟨none, none, none⟩)
       [.submit 0, .submit 1, .submit 2, .submit 3, .submit 4,
        .begin 0, .begin 1, .finish 1 (.suspUntil 0), .begin 2, .finish 2 .susp, .begin 3,
-       .timerFire 1 true, .cancel 4]).isNone = true ∧
+       .timerFire 1, .resubmit 1 true, .cancel 4]).isNone = true ∧
     (runActs (init 5 2 ⟨none, none, none⟩)
       [.submit 0, .submit 1, .submit 2, .submit 3, .submit 4,
        .begin 0, .begin 1, .finish 1 (.suspUntil 0), .begin 2, .finish 2 .susp, .begin 3,
-       .timerFire 1 true, .finish 3 .err, .cancel 4]).map
+       .timerFire 1, .resubmit 1 true, .finish 3 .err, .cancel 4]).map
       (fun s => (s.evt, s.queue, s.status 4)) = some (true, [1], .suspended) ∧
     (runActs (init 5 2 ⟨none, none, none⟩)
       [.submit 0, .submit 1, .submit 2, .submit 3, .submit 4,
        .begin 0, .begin 1, .finish 1 (.suspUntil 0), .begin 2, .finish 2 .susp, .begin 3,
-       .timerFire 1 true, .finish 3 .err, .cancel 4, .begin 1, .wake]).map
+       .timerFire 1, .resubmit 1 true, .finish 3 .err, .cancel 4, .begin 1, .wake]).map
       (fun s => (s.out, s.active, s.maxActive)) =
         some (some (.result [.running, .running, .suspended, .failed, .suspended]), [0, 1], 2) := by
   decide
@@ -736,13 +794,13 @@ branch PENDING and queues nothing; the main thread raises the timed suspend with
 pre-fix witness runs (a worker beginning the resubmitted branch) are no longer runs of the model. -/
 example :
     (runActs (init 1 0 ⟨none, none, none⟩)
-      [.submit 0, .begin 0, .finish 0 (.suspUntil 0), .timerFire 0 true, .wake]).map
+      [.submit 0, .begin 0, .finish 0 (.suspUntil 0), .timerFire 0, .resubmit 0 true, .wake]).map
       (fun s => (s.out, s.status 0, s.queue, s.active, s.timers, s.fatal))
       = some (some (.suspend (some 0)), .pending, [], [], [], false) ∧
     (runActs (init 1 0 ⟨none, none, none⟩)
-      [.submit 0, .begin 0, .finish 0 (.suspUntil 0), .timerFire 0 true, .begin 0]).isNone = true ∧
+      [.submit 0, .begin 0, .finish 0 (.suspUntil 0), .timerFire 0, .resubmit 0 true, .begin 0]).isNone = true ∧
     (runActs (init 2 0 ⟨some 1, none, none⟩)
-      [.submit 0, .submit 1, .begin 0, .begin 1, .finish 0 (.suspUntil 0), .finish 1 .susp, .timerFire 0 true,
+      [.submit 0, .submit 1, .begin 0, .begin 1, .finish 0 (.suspUntil 0), .finish 1 .susp, .timerFire 0, .resubmit 0 true,
        .begin 0]).isNone = true := by decide
 
 set_option synthInstance.maxSize 1024 in
@@ -754,26 +812,61 @@ the main thread does not wake before it has submitted everything, even though a 
 decided the policy; once it has, the never-started branches are reported cancelled. -/
 example :
     (runActs (init 4 3 ⟨none, none, none⟩)
-      [.submit 0, .submit 1, .begin 0, .finish 0 (.suspUntil 0), .timerFire 0 true]).map
+      [.submit 0, .submit 1, .begin 0, .finish 0 (.suspUntil 0), .timerFire 0, .resubmit 0 true]).map
       (fun s => (s.queue, s.status 2, s.status 3, s.submitted))
       = some ([1, 0], .pending, .pending, 2) ∧
     (runActs (init 4 3 ⟨none, none, none⟩)
-      [.submit 0, .submit 1, .begin 0, .finish 0 (.suspUntil 0), .timerFire 0 true, .begin 1,
+      [.submit 0, .submit 1, .begin 0, .finish 0 (.suspUntil 0), .timerFire 0, .resubmit 0 true, .begin 1,
        .submit 2, .submit 3]).map (fun s => (s.queue, s.active)) = some ([0, 2, 3], [1]) ∧
     (runActs (init 4 3 ⟨none, none, none⟩)
-      [.submit 0, .submit 1, .begin 0, .finish 0 (.suspUntil 0), .timerFire 0 true, .begin 1,
+      [.submit 0, .submit 1, .begin 0, .finish 0 (.suspUntil 0), .timerFire 0, .resubmit 0 true, .begin 1,
        .submit 2, .submit 3, .begin 2]).isNone = true ∧
     (runActs (init 4 3 ⟨none, none, none⟩)
-      [.submit 0, .submit 1, .begin 0, .finish 0 (.suspUntil 0), .timerFire 0 true, .begin 1,
+      [.submit 0, .submit 1, .begin 0, .finish 0 (.suspUntil 0), .timerFire 0, .resubmit 0 true, .begin 1,
        .submit 2, .submit 3, .begin 0, .begin 2]).map (fun s => (s.queue, s.active, s.maxActive))
       = some ([3], [1, 0, 2], 3) ∧
     (runActs (init 4 3 ⟨none, none, none⟩) [.submit 1]).isNone = true ∧
     (runActs (init 4 3 ⟨none, none, none⟩)
-      [.submit 0, .submit 1, .begin 0, .finish 0 (.suspUntil 0), .timerFire 0 true, .begin 1,
+      [.submit 0, .submit 1, .begin 0, .finish 0 (.suspUntil 0), .timerFire 0, .resubmit 0 true, .begin 1,
        .finish 1 .err, .wake]).isNone = true ∧
     (runActs (init 4 3 ⟨none, none, none⟩)
-      [.submit 0, .submit 1, .begin 0, .finish 0 (.suspUntil 0), .timerFire 0 true, .begin 1,
+      [.submit 0, .submit 1, .begin 0, .finish 0 (.suspUntil 0), .timerFire 0, .resubmit 0 true, .begin 1,
        .finish 1 .err, .submit 2, .submit 3, .wake]).map (fun s => s.out)
       = some (some (.result [.suspended, .failed, .suspended, .suspended])) := by decide
+
+set_option synthInstance.maxSize 1024 in
+/-- (viii) the resumption has two halves (the run that motivated the split): n = 3.  The timer thread
+pops branch 1's due entry and resets it to PENDING (`timerFire 1`: refresh in flight, nothing queued);
+the main thread's `submit 2` gets in between; only then the resubmitter queues branch 1: the work
+queue is `[2, 1]` — whereas with the resubmitter first it is `[1, 2]`.  While a refresh is in flight
+the timer thread pops no further due entry.  The main thread may leave while a refresh is in flight:
+the late resubmitter then bails out (branch reported PENDING, i.e. started), or records a fatal
+failure that nobody reads any more. -/
+example :
+    (runActs (init 3 0 ⟨none, none, none⟩)
+      [.submit 0, .begin 0, .submit 1, .begin 1, .finish 1 (.suspUntil 0), .timerFire 1]).map
+      (fun s => (s.queue, s.status 1, s.status 2, s.refreshing, s.timers))
+      = some ([], .pending, .pending, some 1, []) ∧
+    (runActs (init 3 0 ⟨none, none, none⟩)
+      [.submit 0, .begin 0, .submit 1, .begin 1, .finish 1 (.suspUntil 0), .timerFire 1, .submit 2,
+       .resubmit 1 true]).map (fun s => (s.queue, s.refreshing)) = some ([2, 1], none) ∧
+    (runActs (init 3 0 ⟨none, none, none⟩)
+      [.submit 0, .begin 0, .submit 1, .begin 1, .finish 1 (.suspUntil 0), .timerFire 1,
+       .resubmit 1 true, .submit 2]).map (fun s => (s.queue, s.refreshing)) = some ([1, 2], none) ∧
+    (runActs (init 3 0 ⟨none, none, none⟩)
+      [.submit 0, .begin 0, .submit 1, .begin 1, .finish 1 (.suspUntil 0), .finish 0 (.suspUntil 0),
+       .timerFire 1, .timerFire 0]).isNone = true ∧
+    (runActs (init 3 0 ⟨none, none, none⟩)
+      [.submit 0, .begin 0, .submit 1, .begin 1, .finish 1 (.suspUntil 0), .finish 0 (.suspUntil 0),
+       .timerFire 1, .resubmit 1 true, .timerFire 0]).map (fun s => (s.queue, s.refreshing))
+      = some ([1], some 0) ∧
+    (runActs (init 2 0 ⟨none, none, none⟩)
+      [.submit 0, .submit 1, .begin 0, .begin 1, .finish 0 (.suspUntil 0), .timerFire 0,
+       .finish 1 .err, .wake, .resubmit 0 true]).map (fun s => (s.out, s.queue, s.status 0, s.fatal))
+      = some (some (.result [.pending, .failed]), [], .pending, false) ∧
+    (runActs (init 2 0 ⟨none, none, none⟩)
+      [.submit 0, .submit 1, .begin 0, .begin 1, .finish 0 (.suspUntil 0), .timerFire 0,
+       .finish 1 .err, .wake, .resubmit 0 false]).map (fun s => (s.out, s.fatal))
+      = some (some (.result [.pending, .failed]), true) := by decide
 
 end C09X
